@@ -29,6 +29,10 @@ pub const UTC_TIME_FORMAT: &str = "%Y-%m-%d %H:%M:%S";
 
 impl IggyTimestamp {
     pub fn now() -> Self {
+        #[cfg(feature = "iggy_verif")]
+        if let Some(now) = verif_clock::get() {
+            return IggyTimestamp::from(now);
+        }
         IggyTimestamp::default()
     }
 
@@ -155,5 +159,25 @@ mod tests {
     fn test_timestamp_from_u64() {
         let timestamp = IggyTimestamp::from(1663472051111);
         assert_eq!(timestamp.as_micros(), 1663472051111);
+    }
+}
+
+/// Verification hook (feature `iggy_verif` only): a process-global virtual clock.
+#[cfg(feature = "iggy_verif")]
+pub mod verif_clock {
+    use std::sync::atomic::{AtomicU64, Ordering};
+
+    static NOW_MICROS: AtomicU64 = AtomicU64::new(0);
+
+    /// Sets the virtual clock (microseconds since the epoch); 0 switches it off.
+    pub fn set(micros: u64) {
+        NOW_MICROS.store(micros, Ordering::SeqCst);
+    }
+
+    pub fn get() -> Option<u64> {
+        match NOW_MICROS.load(Ordering::SeqCst) {
+            0 => None,
+            micros => Some(micros),
+        }
     }
 }
